@@ -124,6 +124,22 @@ pub fn hashn<const N: usize, const R: usize>() {
     core::mem::forget((a, b));
 }
 
+/// from_acgt_bytes_hashn is a function of (read name, position): two reads with the same name that
+/// both hold a non-ACGT byte at position p get the same base there, whatever else the reads hold.
+pub fn hashn_position<const N: usize, const R: usize>() {
+    let s1: [u8; N] = kani::any();
+    let s2: [u8; N] = kani::any();
+    let name: [u8; R] = kani::any();
+    let p = any_index(N);
+    kani::assume(table(s1[p]).is_none() && table(s2[p]).is_none());
+    let a = DnaString::from_acgt_bytes_hashn(&s1, &name);
+    let b = DnaString::from_acgt_bytes_hashn(&s2, &name);
+    assert!(a.get(p) == b.get(p));
+    assert!(a.get(p) < 4);
+    kani::cover!(p == N - 1 && table(s1[0]).is_none() && table(s2[0]).is_some());
+    core::mem::forget((a, b));
+}
+
 /// from_dna_only_string on N ASCII chars: exactly the maximal ACGT runs.
 pub fn dna_only<const N: usize>() {
     let src: [u8; N] = kani::any();
